@@ -301,6 +301,9 @@ impl Ledger {
 pub struct LedgerMemory {
     pub inner: SimpleGseMemory,
     pub led: Rc<RefCell<Ledger>>,
+    /// buffers kept by the wrapper itself when it refuses a save (a memory that answers "occupied slot" keeps what
+    /// it was given: the trait's error value can not carry the buffer back). A fourth place of the ledger.
+    pub parked: Vec<Box<[u8]>>,
 }
 
 fn addr(b: &[u8]) -> usize {
@@ -310,6 +313,7 @@ fn addr(b: &[u8]) -> usize {
 impl GseDecapMemory for LedgerMemory {
     fn new(max_frag_id: usize, max_pdu_size: usize, max_delay: usize, max_pdu_frag: usize) -> Self {
         LedgerMemory {
+            parked: vec![],
             inner: SimpleGseMemory::new(max_frag_id, max_pdu_size, max_delay, max_pdu_frag),
             led: Rc::new(RefCell::new(Ledger::default())),
         }
@@ -443,6 +447,7 @@ impl GseDecapMemory for LedgerMemory {
             let mut g = self.led.borrow_mut();
             g.out.remove(&a);
             g.destroyed_by_injection += 1;
+            self.parked.push(context.1);
             if g.keep_trace {
                 g.trace.push((MemOp::SaveFrag, false));
             }
